@@ -249,8 +249,9 @@ def facts() -> typing.Dict[str, bool]:
     f['union_emplace_destroy_first'] = (pos(em, r'destroy_current\(\)\s*;', 'emplace destroy') < pos(em, r'do_emplace<I>\(', 'emplace construct')
                                         < pos(em, r'tag_\s*=\s*I\s*;', 'emplace tag'))
     csup = strip_comments(gen.read_repo('src/nunavut/lang/cpp/support/serialization.j2'))
-    f['cpp_subspan_clamped'] = seqs.subspan_clamped(csup)
+    sub_ptr, f['cpp_subspan_clamped'] = seqs.subspan_ptr(csup)
     _SEQS.clear()
+    _SEQS['subspan_ptr'] = sub_ptr
     _SEQS.update({'vla': seqs.coq_vla(seqs.vla_paths(macro(cdes, '_deserialize_variable_length_array').split('%}', 1)[1])), 'union': seqs.union_seqs(uni),
                   'cev': seqs.c_event_seqs(macro, ser, des)})
     return f
@@ -279,6 +280,7 @@ def gen_c04() -> typing.Tuple[bool, str]:
     lines.append('\nDefinition tpl_order_facts : bool :=\n  %s.\n' % ' && '.join('tpl_' + k for k in ORDER if not k.startswith(('cpp_', 'union_')) and k not in STATE))
     lines.append('\n(* statement sequences, in textual order; interpreted / decided on the Coq side *)\n')
     lines.append('Definition tpl_cpp_vla_paths : list (list vstmt) :=\n  %s.\n' % _SEQS['vla'])
+    lines.append('Definition tpl_cpp_subspan_ptr : sexp := %s.\n' % _SEQS['subspan_ptr'])
     lines.append('Definition tpl_union_emplace : list ustmt := %s.\n' % _SEQS['union']['emplace'])
     lines.append('Definition tpl_union_ctor : list cstmt := %s.\n' % _SEQS['union']['ctor'])
     lines.append('Definition tpl_union_dshape : dshape := %s.\n' % _SEQS['union']['dshape'])
